@@ -57,8 +57,8 @@ PROFILES = {
     "C05": profile(nsides=(3, 4), names=2, literal_ids=1, napps=(1, 2), jumps=[-3600.0, -30.0, -1.0, 1.0, 30.0],
                    w={"third": 6, "jump": 0.5, "claim": 8, "open": 9, "close": 6, "release": 4, "reconnect": 5, "resend": 4,
                       "drop": 4, "restart": 1.0, "add": 6}),
-    "C06": profile(napps=(2, 3), names=2, literal_ids=2, share_ids_p=0.12,
-                   w={"restart": 1.0, "adv_sweep": 1.5, "adv_long": 0.6}),
+    "C06": profile(napps=(2, 3), names=2, literal_ids=2, share_ids_p=0.12, numeric_app_p=0.15,
+                   w={"restart": 1.0, "adv_sweep": 1.5, "adv_long": 0.6, "connect_unbound": 1.5}),
     "C07": profile(names=4, nsides=(2, 3),
                    w={"claim": 12, "allocate": 5, "release": 10, "list": 5, "close": 6, "open": 5, "add": 3,
                       "reconnect": 4, "resend": 2}),
@@ -78,7 +78,7 @@ PROFILES = {
     "C16": profile(usage_p=1.0, blur=[1, 7, 60, 61, 100, 900, 3600, 86400],
                    w={"close": 8, "release": 7, "persona": 3, "adv_long": 1.5, "adv_sweep": 2, "adv_small": 6}),
     "C17": profile(unicode_p=0.5, welcome_p=0.7, share_ids_p=0.05,
-                   w={"bad": 14, "connect_unbound": 2, "ping": 2, "third": 1}),
+                   w={"bad": 14, "connect_unbound": 2, "ping": 2, "third": 1, "list": 5}),
     "C10": profile(steps=(6, 22), usage_p=0.6, nsides=(2, 3), names=3, autoping_p=0.1, hold_p=0.0,
                    w={"claim": 9, "release": 7, "close": 8, "open": 7, "add": 5, "adv_sweep": 1.5, "adv_long": 1.0,
                       "restart": 0.3, "kill": 0.3, "persona": 2.5, "third": 0.8, "bad": 0.2, "stall": 0, "idle_sub": 1.5}),
@@ -113,6 +113,8 @@ class Gen(object):
         r = self.rng = make_rng(seed, "gen")
         p = prof
         self.apps = APPS[:r.randint(*p["napps"])]
+        if r.random() < p.get("numeric_app_p", 0.0):
+            self.apps[-1] = "1"          # an application whose id looks like a number
         self.sides = SIDES[:r.randint(*p["nsides"])]
         self.names = NAMES[:max(1, p["names"])]
         self.nsteps = r.randint(*p["steps"])
@@ -337,6 +339,11 @@ class Gen(object):
     def a_bad(self, c):
         """commands of the erroneous classes of C17, in whatever state c is in"""
         r = self.rng
+        if c.app is None and "1" in self.apps and r.random() < 0.5:
+            # outside the input domain: a number where a string belongs
+            c.app = "1"
+            c.side = r.choice(self.sides)
+            return [{"op": "send", "c": c.id, "m": {"type": "bind", "appid": r.choice([1, 1.0, True]), "side": c.side}}]
         kinds = ["notype", "unknown", "ping-noping", "bind-again", "bind-noappid", "bind-noside",
                  "claim-noname", "second-allocate", "second-claim", "second-release", "second-close",
                  "open-held", "open-nomailbox", "release-mismatch", "close-mismatch", "add-noopen",
